@@ -664,6 +664,28 @@ Proof.
   destruct (0 <? limit); exact Ic.
 Qed.
 
+(* the machine's per-event outcomes pass the schedule specification, for every schedule *)
+Lemma sem_outcomes_spec limit : forall es m, sem_inv limit m ->
+  spec_sched limit (m_threads m) es (sem_outcomes limit m es) = true.
+Proof.
+  induction es as [|e es IH]; intros m I; [reflexivity|].
+  pose proof (sem_step_inv limit m e I) as I'. specialize (IH _ I').
+  destruct I as [Ic _ _ _ _ _]. unfold running in Ic.
+  destruct e as [t | t p]; cbn [sem_outcomes spec_sched sem_step] in IH |- *.
+  - destruct (tlookup t (m_threads m)) eqn:T.
+    + simpl. exact IH.
+    + destruct (sem_admits limit (m_count m)) eqn:A; simpl in IH |- *.
+      * rewrite IH, andb_true_r. destruct (limit <=? 0) eqn:L; [reflexivity|]. apply Z.leb_gt in L.
+        pose proof (sem_admits_true _ _ A L) as K. assert (Q : (0 <? limit) = true) by (apply Z.ltb_lt; exact L).
+        rewrite Q in Ic. simpl. apply Z.ltb_lt. lia.
+      * rewrite IH, andb_true_r. destruct (sem_admits_false _ _ A) as [L K].
+        assert (Q : (0 <? limit) = true) by (apply Z.ltb_lt; exact L). rewrite Q in Ic |- *. simpl. apply Z.leb_le. lia.
+  - destruct (tlookup t (m_threads m)) as [[| |]|]; simpl in IH |- *; exact IH.
+Qed.
+
+Lemma sched_spec_lemma : forall limit es, spec_sched limit [] es (sem_outcomes limit sem0 es) = true.
+Proof. intros limit es. exact (sem_outcomes_spec limit es sem0 (sem_inv0 limit)). Qed.
+
 (* ------------------------------------------------------------------ top-level statements *)
 Lemma parse_then_negotiate_lemma : forall (vals offers : list str),
   let c := negotiate_ce (parse_accept vals) offers in
